@@ -4,8 +4,13 @@
 //
 //	C08 dec <dialect> <fields> <players> <objectives> <cuts> <order> <dgrams>
 //	    the abstract status, its encoding (checked against the Lean encoder by the driver) and the
-//	    delivery order (indices into <dgrams>, duplicates allowed)
+//	    delivery order (indices into <dgrams>, duplicates allowed); players = kvs|kvs|… with the indexes 0,1,2,…
 //	    => resp <ver> <fields> <players> <objectives> | timeout | err:…
+//	C08 decw <dialect> <fields> <players> <objectives> <wire> <cuts> <order> <dgrams>
+//	    the same with explicit player indexes (players = id=kvs|id=kvs|…: gaps, any listing order) and the
+//	    order in which the pairs are sent (<wire>: indexes into the canonical pair list): the pairs of
+//	    different players, the server fields and the objectives interleaved
+//	    => as for dec
 //	C08 probe <gameport> <responder>;<responder>;…
 //	    responder = x (closed port) | <delay_ms>/<dgrams> (answers after the delay)
 //	    => chosen <k> <ver> res:<class> | failed      (k = index of the responder whose answer was kept)
@@ -43,15 +48,19 @@ const queryTimeout = 150 * time.Millisecond
 
 func exec(op string, args []string) []string {
 	switch op {
-	case "dec":
-		if len(args) != 7 {
+	case "dec", "decw":
+		k := 5
+		if op == "decw" {
+			k = 6
+		}
+		if len(args) != k+2 {
 			return []string{"bad-op"}
 		}
-		order, err := u.ParseInts(args[5])
+		order, err := u.ParseInts(args[k])
 		if err != nil {
 			return []string{"bad-op"}
 		}
-		ds, err := u.SplitDgrams(args[6])
+		ds, err := u.SplitDgrams(args[k+1])
 		if err != nil {
 			return []string{"bad-op"}
 		}
@@ -195,6 +204,9 @@ func isFragmenting(d string) bool { return d != "vanilla" && d != "vanillaq" }
 func encoded(rng *rand.Rand, dialect string, nPlayers, nObjs, nFrag int) (u.Status, []int, [][]byte) {
 	for {
 		s := u.RandStatus(rng, nPlayers, nObjs)
+		if rng.Intn(3) != 0 { // explicit indexes (gaps, out of order) and an interleaved wire order
+			s = u.RandWire(rng, s)
+		}
 		flat := s.Flat()
 		var cuts []int
 		if isFragmenting(dialect) {
@@ -214,6 +226,11 @@ func encoded(rng *rand.Rand, dialect string, nPlayers, nObjs, nFrag int) (u.Stat
 }
 
 func emitDec(emit core.Emit, dialect string, s u.Status, cuts []int, order []int, ds [][]byte) {
+	if s.HasWire() {
+		st := s.TokensW()
+		emit("decw", dialect, st[0], st[1], st[2], st[3], u.IntsTok(cuts), u.IntsTok(order), u.JoinDgrams(ds))
+		return
+	}
 	st := s.Tokens()
 	emit("dec", dialect, st[0], st[1], st[2], u.IntsTok(cuts), u.IntsTok(order), u.JoinDgrams(ds))
 }
